@@ -107,8 +107,32 @@ structure PSt where
   tlast : Nat := 0
   credit : Nat := 0
   relBits : Nat := 0
+  /-- armed `hook after=k r=`: the next writer calls `SetRate(r)` from inside its k-th hand-over from now on -/
+  hook : Option (Nat × Nat) := none
 
 def pcfg (ivlUs : Nat) : Cfg Pkt FTB := { sz := (·.size), cap := 1000000, ivlUs := ivlUs, lm := ftb }
+
+/-- One tick at `t` with an armed hook `(k, r)`: `SetRate(r)` is called re-entrantly from inside the k-th hand-over.
+The loop of a tick only ever looks at the head of its local queue, so a tick that hands over k packets, has the rate
+changed and goes on with the rest is the event sequence `tick t` (only the first k packets drained from the channel
+so far), `setRate t r`, the remaining drains, `tick t` — events of `Model/Pacing.lean`, covered by every theorem over
+event lists (`envelope`, `fifo_exactly_once`).  Returns the state (its `delivered` = this tick's hand-overs), the
+hook if still armed, and `some (k, r)` if it fired after the k-th hand-over of this tick. -/
+def tickHook (ivlUs : Nat) (hook : Option (Nat × Nat)) (st : St Pkt FTB) (t : Nat) :
+    St Pkt FTB × Option (Nat × Nat) × Option (Nat × Nat) :=
+  match hook with
+  | none => (exec (pcfg ivlUs) st (.tick t), none, none)
+  | some (k, r) =>
+    if st.loc.length < k then
+      let st' := exec (pcfg ivlUs) st (.tick t)
+      (st', some (k - st'.delivered.length, r), none)
+    else
+      let st1 := exec (pcfg ivlUs) { st with loc := st.loc.take k, chan := st.loc.drop k ++ st.chan } (.tick t)
+      if st1.loc.isEmpty then
+        let st2 := exec (pcfg ivlUs) st1 (.setRate t r)
+        (exec (pcfg ivlUs) (drainAll st2) (.tick t), none, some (k, r))
+      else
+        ({ st1 with loc := st1.loc ++ st.loc.drop k, chan := st.chan }, some (k - st1.delivered.length, r), none)
 
 /-- fire every tick up to and including `target`. -/
 def ticksUntil (target : Nat) : Nat → PSt → St Pkt FTB → Array String → PSt × St Pkt FTB × Array String
@@ -116,15 +140,20 @@ def ticksUntil (target : Nat) : Nat → PSt → St Pkt FTB → Array String → 
   | fuel + 1, ps, st, out =>
     if ps.nextTick > target then (ps, st, out) else
     let t := ps.nextTick
-    let st' := exec (pcfg ps.ivlUs) { st with delivered := [] } (.tick t)
+    let (st', hook', fired) := tickHook ps.ivlUs ps.hook { st with delivered := [] } t
     let isBlk := fun (p : Pkt) => ps.blk.contains (p.stream, p.seq)
-    let out := st'.delivered.foldl
-      (fun o p => if isBlk p then o else o.push (showD t p.stream p.seq p.hd p.pd ++ genSuffix p.gen)) out
+    let out := (st'.delivered.zipIdx).foldl
+      (fun o (p, i) =>
+        let o := if isBlk p then o else o.push (showD t p.stream p.seq p.hd p.pd ++ genSuffix p.gen)
+        match fired with
+        | some (k, r) => if i + 1 = k then o.push s!"hook t={t / 1000} r={r}" else o
+        | none => o) out
     let ps := { ps with blkDelivered := st'.delivered.foldl (fun a p => if isBlk p then a.push p else a) ps.blkDelivered }
     let credit := ps.credit + ps.rate * (t - ps.tlast)
     let rel := ps.relBits + (st'.delivered.map (8 * ·.size)).foldl (· + ·) 0
     let out := if rel * giga ≤ credit then out else out.push "ENVELOPE-VIOLATED"
-    let ps := { ps with nextTick := t + ps.ivlUs * 1000, tlast := t, credit := credit, relBits := rel }
+    let ps := { ps with nextTick := t + ps.ivlUs * 1000, tlast := t, credit := credit, relBits := rel, hook := hook',
+                        rate := match fired with | some (_, r) => r | none => ps.rate }
     ticksUntil target fuel ps { st' with delivered := [], accepted := [] } out
 
 /-- `Write` result line and packet of a shape on a stream. -/
@@ -158,7 +187,7 @@ def pacingStep (ps : PSt) (ts : List String) : PSt × List String :=
   match ts.head? with
   | some "cwbegin" =>
     match ps.st with
-    | some _ => if ps.closed then (ps, ["bad-op"]) else ({ ps with cw := some [] }, [])
+    | some _ => if ps.closed then (ps, ["bad-op"]) else ({ ps with cw := some [], hook := none }, [])
     | none => (ps, ["bad-op"])
   | some "cww" =>
     match ps.cw, getNat fs "s", parseShape fs, getNat fs "sl" with
@@ -201,6 +230,11 @@ def pacingStep (ps : PSt) (ts : List String) : PSt × List String :=
       let st' := exec (pcfg ps.ivlUs) st (.setRate ps.now r)
       ({ ps with st := some st', credit := ps.credit + ps.rate * (ps.now - ps.tlast), tlast := ps.now, rate := r }, [])
     | _, _ => (ps, ["bad-op"])
+  | some "hook" =>
+    match getNat fs "after", getNat fs "r", ps.st with
+    | some k, some r, some _ =>
+      if k < 1 || k > 100000 || r > 2000000000 || ps.closed then (ps, ["bad-op"]) else ({ ps with hook := some (k, r) }, [])
+    | _, _, _ => (ps, ["bad-op"])
   | some "adv" =>
     match getNat fs "us" with
     | some d =>
